@@ -449,3 +449,114 @@ Example C20_gen_nonvacuous :
   /\ Voxelize.find_inouts_st Qops [[[0; 0; 0]; [1; 1; 1]]; [[1; 0; 0]; [2; 1; 1]]]%Q [[3#2; 1#2; 1#2]]%Q (1#100)%Q = GOk [0%Z; 1%Z].
 Proof. repeat split; vm_compute; reflexivity. Qed.
 
+From NV Require Import Model.Hull Gen.Utilities Proofs.GenTieBBox.
+From NV Require Import Model.Fit Gen.Fitting Proofs.GenTieFit.
+From NV Require Import Model.Derivs Proofs.GenTieDerivCpts.
+From NV Require Import Proofs.GenTieArr4 Proofs.GenTieDerivSurf.
+From NV Require Import Model.KnotRefine Proofs.GenTieRefine.
+From NV Require Import Model.Eval Gen.Evaluators Proofs.GenTieEvalLib Proofs.GenTieEvalCurve Proofs.GenTieEvalSurf Proofs.GenTieEvalVol.
+From NV Require Import Model.Derivs Gen.HelpersC Proofs.GenTieBinom Proofs.GenTieBasisAll Proofs.GenTieEvalDerivCurve Proofs.GenTieEvalDerivCurve2.
+From NV Require Import Proofs.GenTieEvalDerivSurf Proofs.GenTieEvalDerivSurfRat Proofs.GenTieEvalDerivSurf2.
+From NV Require Import Model.Weights Gen.Compatibility Proofs.GenTieCompat.
+From NV Require Import Model.Layout Gen.Compatibility Proofs.GenTieFlip.
+
+From NV Require Import Model.Layout Model.Voxel Model.Hull Gen.OperationsInternal Proofs.GenTieFindCtrlpts.
+
+(* [G] _operations.find_ctrlpts_curve <-> Voxel.find_ctrlpts_curve (C20); wf: degree < len(ctrlpts) <= len(knotvector) *)
+Theorem C20_gen_find_ctrlpts_curve_R : forall (p : nat) (U : list R) (P : list (list R)) (t : R),
+  p < length P -> length P <= length U ->
+  OperationsInternal.find_ctrlpts_curve Rops t (mk_curveobj (Z.of_nat p) U P) (OperationsInternal.find_ctrlpts_curve__default_find_span_func Rops)
+  = GOk (Voxel.find_ctrlpts_curve Rops p U P t).
+Proof. exact find_ctrlpts_curve_tie_R. Qed.
+Print Assumptions C20_gen_find_ctrlpts_curve_R.
+Theorem C20_gen_find_ctrlpts_curve_Q : forall (p : nat) (U : list Q) (P : list (list Q)) (t : Q),
+  p < length P -> length P <= length U ->
+  OperationsInternal.find_ctrlpts_curve Qops t (mk_curveobj (Z.of_nat p) U P) (OperationsInternal.find_ctrlpts_curve__default_find_span_func Qops)
+  = GOk (Voxel.find_ctrlpts_curve Qops p U P t).
+Proof. exact find_ctrlpts_curve_tie_Q. Qed.
+Print Assumptions C20_gen_find_ctrlpts_curve_Q.
+
+(* [G] _operations.find_ctrlpts_surface <-> Voxel.find_ctrlpts_surface (C20) *)
+Theorem C20_gen_find_ctrlpts_surface_R : forall (pu pv : nat) (Uu Uv : list R) (su sv : nat) (V : list (list (list R))) (P : list (list R)) (tu tv : R),
+  is_view2d V su sv P -> pu < su -> pv < sv -> su <= length Uu -> sv <= length Uv ->
+  OperationsInternal.find_ctrlpts_surface Rops tu tv (mk_surfobj (Z.of_nat pu) (Z.of_nat pv) Uu Uv (Z.of_nat su) (Z.of_nat sv) V)
+    (OperationsInternal.find_ctrlpts_surface__default_find_span_func Rops)
+  = GOk (Voxel.find_ctrlpts_surface Rops pu pv Uu Uv su sv P tu tv).
+Proof. exact find_ctrlpts_surface_tie_R. Qed.
+Print Assumptions C20_gen_find_ctrlpts_surface_R.
+Theorem C20_gen_find_ctrlpts_surface_Q : forall (pu pv : nat) (Uu Uv : list Q) (su sv : nat) (V : list (list (list Q))) (P : list (list Q)) (tu tv : Q),
+  is_view2d V su sv P -> pu < su -> pv < sv -> su <= length Uu -> sv <= length Uv ->
+  OperationsInternal.find_ctrlpts_surface Qops tu tv (mk_surfobj (Z.of_nat pu) (Z.of_nat pv) Uu Uv (Z.of_nat su) (Z.of_nat sv) V)
+    (OperationsInternal.find_ctrlpts_surface__default_find_span_func Qops)
+  = GOk (Voxel.find_ctrlpts_surface Qops pu pv Uu Uv su sv P tu tv).
+Proof. exact find_ctrlpts_surface_tie_Q. Qed.
+Print Assumptions C20_gen_find_ctrlpts_surface_Q.
+Example C20_gen_find_ctrlpts_nonvacuous :
+  OperationsInternal.find_ctrlpts_curve Qops (3 # 10)%Q (mk_curveobj 3 exU exCP) (OperationsInternal.find_ctrlpts_curve__default_find_span_func Qops)
+    = GOk [[1; 2]; [2; 3]; [3; 3]; [4; 2]]%Q
+  /\ Voxel.find_ctrlpts_curve Qops 3 exU exCP (3 # 10)%Q = [[1; 2]; [2; 3]; [3; 3]; [4; 2]]%Q.
+Proof. split; vm_compute; reflexivity. Qed.
+
+From NV Require Import Model.Layout Model.Hull Gen.OperationsInternal Proofs.GenTieFindCtrlpts.
+From NV Require Import Model.InsertKnot Gen.UtilitiesB Proofs.GenTieCheckParams.
+From NV Require Import Model.Fit Gen.PreludeExt2 Gen.Fitting Gen.FittingB Proofs.GenTieFit Proofs.GenTieFitB.
+From NV Require Import Proofs.GenTieFitSurf.
+From NV Require Import Gen.PreludeExt2 Gen.LinalgB Proofs.GenTieLinAlgB.
+From NV Require Import Model.Geom2D Proofs.GenTieLinAlgSqrt.
+
+From NV Require Import Model.Geom2D Proofs.GenTieLinAlgSqrt.
+
+(* [G] linalg.point_distance: ALL inputs; the squared distance is Geom2D.dist2 (C20; = KnotRem.dist2, Hull.sqdist b a) *)
+Theorem C20_gen_point_distance_R : forall (a b : list R) (py_sqrt : R -> gres R),
+  LinalgB.point_distance Rops a b py_sqrt =
+  if negb (Nat.eqb (length a) (length b)) then GErr ValueError
+  else if LinAlg.isnil a then GErr ValueError else py_sqrt (Geom2D.dist2 Rops a b).
+Proof. exact point_distance_tie_R. Qed.
+Print Assumptions C20_gen_point_distance_R.
+Theorem C20_gen_point_distance_Q : forall (a b : list Q) (py_sqrt : Q -> gres Q),
+  LinalgB.point_distance Qops a b py_sqrt =
+  if negb (Nat.eqb (length a) (length b)) then GErr ValueError
+  else if LinAlg.isnil a then GErr ValueError else py_sqrt (Geom2D.dist2 Qops a b).
+Proof. exact point_distance_tie_Q. Qed.
+Print Assumptions C20_gen_point_distance_Q.
+
+(* [G] at Rops with the real square root *)
+Theorem C20_gen_point_distance_R_sqrt : forall (a b : list R), length a = length b -> a <> [] ->
+  LinalgB.point_distance Rops a b (fun x => GOk (sqrt x)) = GOk (sqrt (Geom2D.dist2 Rops a b)).
+Proof. exact point_distance_tie_R_sqrt. Qed.
+Print Assumptions C20_gen_point_distance_R_sqrt.
+
+
+
+From NV Require Import Model.Voxel Gen.LinalgC Gen.VoxelizeB Proofs.GenTieVoxelGrid.
+
+(* [G] linalg.frange: ALL inputs, every bound *)
+Theorem C20_gen_frange_R : forall (fuel : nat) (start stop step : R),
+  LinalgC.frange Rops start stop step (Z.of_nat fuel) =
+  res_to_gres (fun x => x) ValueError OutOfFuel (Geom2D.frange Rops fuel start stop step).
+Proof. exact frange_tie_R. Qed.
+Print Assumptions C20_gen_frange_R.
+Theorem C20_gen_frange_Q : forall (fuel : nat) (start stop step : Q),
+  LinalgC.frange Qops start stop step (Z.of_nat fuel) =
+  res_to_gres (fun x => x) ValueError OutOfFuel (Geom2D.frange Qops fuel start stop step).
+Proof. exact frange_tie_Q. Qed.
+Print Assumptions C20_gen_frange_Q.
+
+(* [G] _voxelize.generate_voxel_grid; wf: a box of two corners with >= 3 coordinates (the three sizes are given as a list); GeomdlException (a size <= 1) <-> Rejected *)
+Theorem C20_gen_generate_voxel_grid_R : forall (fuel : nat) (bbox : list (list R)) (s0 s1 s2 : nat) (use_cubes : bool),
+  2 <= length bbox -> 3 <= length (nth 0 bbox []) -> 3 <= length (nth 1 bbox []) ->
+  VoxelizeB.generate_voxel_grid Rops bbox [Z.of_nat s0; Z.of_nat s1; Z.of_nat s2] use_cubes (Z.of_nat fuel) =
+  res_to_gres (fun x => x) GeomdlError OutOfFuel (Voxel.generate_voxel_grid Rops fuel bbox [s0; s1; s2] use_cubes).
+Proof. exact generate_voxel_grid_tie_R. Qed.
+Print Assumptions C20_gen_generate_voxel_grid_R.
+Theorem C20_gen_generate_voxel_grid_Q : forall (fuel : nat) (bbox : list (list Q)) (s0 s1 s2 : nat) (use_cubes : bool),
+  2 <= length bbox -> 3 <= length (nth 0 bbox []) -> 3 <= length (nth 1 bbox []) ->
+  VoxelizeB.generate_voxel_grid Qops bbox [Z.of_nat s0; Z.of_nat s1; Z.of_nat s2] use_cubes (Z.of_nat fuel) =
+  res_to_gres (fun x => x) GeomdlError OutOfFuel (Voxel.generate_voxel_grid Qops fuel bbox [s0; s1; s2] use_cubes).
+Proof. exact generate_voxel_grid_tie_Q. Qed.
+Print Assumptions C20_gen_generate_voxel_grid_Q.
+Example C20_gen_frange_nonvacuous :
+  LinalgC.frange Qops 0%Q 1%Q (3 # 10)%Q 10 = GOk [0; 3 # 10; 3 # 5; 9 # 10; 1]%Q
+  /\ Geom2D.frange Qops 10 0%Q 1%Q (3 # 10)%Q = Ok [0; 3 # 10; 3 # 5; 9 # 10; 1]%Q
+  /\ LinalgC.frange Qops 0%Q 1%Q (1 # 4)%Q 3 = GErr OutOfFuel /\ Geom2D.frange Qops 3 0%Q 1%Q (1 # 4)%Q = Crash.
+Proof. split; [|split; [|split]]; vm_compute; reflexivity. Qed.
